@@ -8,6 +8,8 @@ import RactorModel.Lemmas.FactoryDrain
 import RactorModel.Lemmas.FactoryHooks
 import RactorModel.Lemmas.FactoryActors
 import RactorModel.Lemmas.FactoryLimitRun
+import RactorModel.Lemmas.FactoryLimitChange
+import RactorModel.Lemmas.FactoryLimitHigh
 import RactorModel.Lemmas.FactoryWorkerLimit
 
 /-!
@@ -652,6 +654,72 @@ theorem generated_leaky_bump_eq_model (instLim clock : Nat) (s : LeakyBucketRate
   · simp [h, absLB]
 end XlateTie
 
+/-! ## Round 4, wave 2: the queue limit after the settings were changed mid-run -/
+
+open Factory in
+/-- (limit, run level, Oldest, CHANGED settings) From ANY state whose discard settings are `Oldest:L` — in particular a
+reachable state right after an `UpdateSettings` lowered the limit below the current backlog — and for EVERY further op
+sequence that does not change the discard settings again: at every later quiescent point the factory queue is within the
+new limit `L`, or nothing has been added to it since the change (it is a sublist of the queue at the change). So the next
+dispatch that ends in the queue trims it to `L`, and it stays within `L` from then on. -/
+theorem queue_limit_oldest_after_change (w : W) (L : Nat) (hd : w.disc = some (L, .oldest))
+    (hin : ∀ m ∈ w.inbox, ∀ d n, m ≠ .updateSettings (some d) n) (steps : List Step)
+    (hk : steps.all (fun s => s.op.keepsDisc) = true) :
+    (w.runSteps steps).queue.length ≤ L ∨ (w.runSteps steps).queue.Sublist w.queue :=
+  oldest_trims_after_change w L hd hin steps hk
+
+open Factory in
+/-- (limit, run level, Newest, CHANGED settings) same quantification with `Newest:L`: the number of discardable jobs in the
+factory queue never exceeds `max L (their number at the change)` — a lowered `Newest` limit does not trim the backlog, it
+only stops it from growing. -/
+theorem queue_limit_newest_after_change (w : W) (L : Nat) (hd : w.disc = some (L, .newest))
+    (hin : ∀ m ∈ w.inbox, ∀ d n, m ≠ .updateSettings (some d) n) (steps : List Step)
+    (hk : steps.all (fun s => s.op.keepsDisc) = true) :
+    ((w.runSteps steps).queue.filter (discardable (w.runSteps steps).cfg)).length
+      ≤ max L (w.queue.filter (discardable w.cfg)).length :=
+  newest_stops_growing_after_change w L hd hin steps hk
+
+open Factory in
+/-- (limit, run level, Oldest, CHANGED settings, as a bound) the queue never exceeds `max L (its length at the change)` -/
+theorem queue_bounded_oldest_after_change (w : W) (L : Nat) (hd : w.disc = some (L, .oldest))
+    (hin : ∀ m ∈ w.inbox, ∀ d n, m ≠ .updateSettings (some d) n) (steps : List Step)
+    (hk : steps.all (fun s => s.op.keepsDisc) = true) :
+    (w.runSteps steps).queue.length ≤ max L w.queue.length :=
+  oldest_bounded_after_change w L hd hin steps hk
+
+open Factory in
+/-- non-vacuity: the hypotheses hold at a REACHABLE state with the queue over the new limit (`lowerCase` after its
+`settings oldest:0` step: one job queued, limit 0, mailbox empty), and the next backlogging dispatch trims to 0 -/
+example : ((init lowerCase).runSteps (lowerSteps.take 5)).disc = some (0, .oldest) ∧
+    ((init lowerCase).runSteps (lowerSteps.take 5)).inbox = [] ∧
+    ((init lowerCase).runSteps (lowerSteps.take 5)).queue.length = 1 ∧
+    (((init lowerCase).runSteps (lowerSteps.take 5)).runSteps (lowerSteps.drop 5)).queue.length = 0 := by decide +kernel
+open Factory in
+/-- the same history with `Newest`: the lowered limit refuses the newcomer and leaves the backlog alone -/
+def lowerStepsNewest : List Step :=
+  (lowerSteps.take 4) ++ [⟨.settings (some (some (0, .newest))) none, 9000000, 10000000, 11000000⟩,
+    ⟨.dispatch 11 5 15794382300316794652 none false, 11000000, 12000000, 13000000⟩]
+open Factory in
+example : (((init lowerCase).runSteps (lowerStepsNewest.take 5)).queue.map (·.id)) = [10] ∧
+    ((init lowerCase).runSteps (lowerStepsNewest.take 5)).disc = some (0, .newest) ∧
+    (((init lowerCase).runSteps lowerStepsNewest).queue.map (·.id)) = [10] := by decide +kernel
+
+
+open Factory in
+/-- (limit, run level, settings changed ARBITRARILY often — high-water mark) For every case whose initial limit is `≤ H` and
+EVERY op sequence in which every settings update configures some limit `≤ H` (either mode, raised and lowered at will, never
+switched off): at every quiescent point the factory queue holds at most `H` discardable jobs — both queue types, every
+router, with or without limiter. With `queue_limit_*_after_change` for what a single change does. -/
+theorem queue_high_water_mark_run (c : CaseCfg) (H : Nat) (hd : okD H c.disc = true) (steps : List Step)
+    (hk : steps.all (fun s => s.op.limitsWithin H) = true) :
+    (((init c).runSteps steps).queue.filter (discardable ((init c).runSteps steps).cfg)).length ≤ H :=
+  (hw_always c hd steps hk).bound
+
+open Factory in
+/-- non-vacuity: `lowerCase` (limit 1, lowered to 0 on the way) satisfies the hypotheses with `H = 1` -/
+example : okD 1 lowerCase.disc = true ∧ lowerSteps.all (fun s => s.op.limitsWithin 1) = true := by decide
+
+
 end C15
 
 #print axioms C15.bucket_balance_le_max
@@ -696,3 +764,7 @@ end C15
 #print axioms C15.generated_leaky_refresh_eq_model
 #print axioms C15.generated_leaky_check_eq_model
 #print axioms C15.generated_leaky_bump_eq_model
+#print axioms C15.queue_limit_oldest_after_change
+#print axioms C15.queue_limit_newest_after_change
+#print axioms C15.queue_bounded_oldest_after_change
+#print axioms C15.queue_high_water_mark_run
